@@ -5,10 +5,10 @@ TARGETS = {
 PROP = {
     "subchecks": [
         {"target": "c09_log_tsan", "sub": "logging",
-         "quick": {"cases": 250, "max_size": 60, "workers": 8, "case_alarm": 60},
+         "quick": {"cases": 700, "max_size": 60, "workers": 8, "case_alarm": 60},
          "thorough": {"cases": 8000, "max_size": 150, "workers": 10, "case_alarm": 60}},
         {"target": "c09_log_asan", "sub": "logging",
-         "quick": {"cases": 400, "max_size": 60, "workers": 4, "case_alarm": 60},
+         "quick": {"cases": 1000, "max_size": 60, "workers": 4, "case_alarm": 60},
          "thorough": {"cases": 8000, "max_size": 150, "workers": 6, "case_alarm": 60}},
     ],
     "assumptions": ["filters and the maximum length are configured before the logging threads start (re-configuring concurrently with logging is not claimed)",
